@@ -1,5 +1,5 @@
 (* Lemmas about Model/Refs.v (statements of the property are in Properties/C07.v). *)
-From Coq Require Import List Bool NArith Lia Permutation.
+From Coq Require Import List Bool Arith NArith Lia Permutation.
 From PC Require Import Base.Outcome Base.Py Base.Libs Gen.Params Model.IndexedList Model.Errors Model.Refs
      Proofs.Errors.
 Import ListNotations.
@@ -471,3 +471,238 @@ Proof. apply run_steps_fuel. Qed.
 Lemma load_doc_contents mk d1 d2 :
   (forall k, contents_of d1 k = contents_of d2 k) -> load_doc mk d1 = load_doc mk d2.
 Proof. intro H. unfold load_doc. apply run_steps_contents. exact H. Qed.
+
+(* ---------------------------------------------------------------- completeness of the retry loop *)
+
+Lemma first_lookup_in : forall l a u, first_lookup l a = Some u -> In (u, a) l.
+Proof.
+  induction l as [|x r IH]; intros a u H; simpl in H; [discriminate|].
+  destruct (N.eqb a (oid x)) eqn:E.
+  - inversion H. apply N.eqb_eq in E. destruct x as [xu xi]. unfold oid, ouid in *. simpl in *. subst. left. reflexivity.
+  - right. apply IH. exact H.
+Qed.
+
+(* an instance_node that is bound is bound to an object carrying the instantiated id: a node
+   loaded earlier in this group, or a library node *)
+Lemma node_binding_carries_id sc o loaded t h u :
+  load_child sc o loaded (NNode t h) = COk (BNode u) ->
+  h = true /\ In (u, t) (lib_list o LNodes ++ map lnode_obj loaded).
+Proof.
+  simpl. destruct h; simpl; [|discriminate].
+  destruct (find_node sc o loaded t) as [v|] eqn:E; [|discriminate].
+  intro H. inversion H. subst. split; [reflexivity|].
+  destruct sc; simpl in E.
+  - apply spec_lookup_in. exact E.
+  - destruct (first_lookup (filter (fun x => negb (N.eqb (oid x) 0)) (map lnode_obj loaded)) t) as [w|] eqn:F.
+    + inversion E. subst. apply in_or_app. right. apply first_lookup_in in F. apply filter_In in F. tauto.
+    + apply in_or_app. left. apply spec_lookup_in. exact E.
+Qed.
+
+Lemma children_defer_witness {Child Val} (f : Child -> cres Val) mk : forall cs vals errs,
+  snd (load_children f mk cs vals errs) = SDefer -> exists c, In c cs /\ f c = CDefer.
+Proof.
+  induction cs as [|c r IH]; intros vals errs H; simpl in H; [discriminate|].
+  destruct (f c) as [v|e|] eqn:E.
+  - destruct (IH _ _ H) as [c' [A B]]. exists c'. split; [right; exact A|exact B].
+  - destruct (catch e) as [e'|]; [|simpl in H; discriminate].
+    unfold handle in H. destruct (masked mk e'); [|simpl in H; discriminate].
+    destruct (IH _ _ H) as [c' [A B]]. exists c'. split; [right; exact A|exact B].
+  - exists c. split; [left; reflexivity|exact E].
+Qed.
+
+Lemma children_noraise {Child Val} (f : Child -> cres Val) mk : forall cs vals errs,
+  (forall c e, In c cs -> f c <> CRaise e) ->
+  fst (load_children f mk cs vals errs) = (fst (fst (load_children f mk cs vals errs)), errs) /\
+  (forall x, snd (load_children f mk cs vals errs) <> SAbort x).
+Proof.
+  induction cs as [|c r IH]; intros vals errs H; simpl.
+  - split; [reflexivity|discriminate].
+  - destruct (f c) as [v|e|] eqn:E.
+    + apply IH. intros c' e' Hin. apply H. right. exact Hin.
+    + exfalso. exact (H c e (or_introl eq_refl) E).
+    + simpl. split; [reflexivity|discriminate].
+Qed.
+
+Section Complete.
+  Variable mk : mask.
+  Variable sc : scope.
+  Variable o : objs.
+
+  Definition loaded_uid (n : tnode) (l : list lnode) : Prop := In (n_uid n, n_id n) (map lnode_obj l).
+  (* the instance_geometry/controller/light/camera children of the node all resolve *)
+  Definition insts_ok (n : tnode) : Prop :=
+    forall c e loaded, In c (n_children n) -> load_child sc o loaded c <> CRaise e.
+
+  Lemma pass_good : forall nodes loaded pending errs succ l' p' e' s' ab,
+    (forall n, In n nodes -> insts_ok n) ->
+    pass mk sc o nodes loaded pending errs succ = (l', p', e', s', ab) ->
+    ab = None /\ e' = errs /\
+    (forall n, In n nodes -> In n p' \/ loaded_uid n l') /\
+    (forall n, In n pending -> In n p') /\
+    (forall n, In n p' -> In n pending \/ In n nodes) /\
+    (forall x, In x (map lnode_obj loaded) -> In x (map lnode_obj l')) /\
+    (forall x, In x (map lnode_obj l') -> In x (map lnode_obj loaded) \/ exists n, In n nodes /\ x = (n_uid n, n_id n)) /\
+    (s' = false -> succ = false /\ l' = loaded /\
+                   forall n, In n nodes ->
+                     snd (load_children (load_child sc o loaded) mk (n_children n) [] errs) = SDefer).
+  Proof.
+    induction nodes as [|n r IH]; intros loaded pending errs succ l' p' e' s' ab Hg H.
+    - simpl in H. inversion H. subst. repeat split; auto; try (intros n []).
+    - simpl in H.
+      assert (Hn : forall c e, In c (n_children n) -> load_child sc o loaded c <> CRaise e).
+      { intros c e Hin. apply (Hg n (or_introl eq_refl)). exact Hin. }
+      destruct (children_noraise (load_child sc o loaded) mk (n_children n) [] errs Hn) as [He Hna].
+      assert (Hg' : forall n0, In n0 r -> insts_ok n0) by (intros n0 Hin; apply Hg; right; exact Hin).
+      destruct (load_children (load_child sc o loaded) mk (n_children n) [] errs) as [[vals errs1] st] eqn:E.
+      simpl in He, Hna. inversion He. subst errs1.
+      destruct st as [|x|].
+      + destruct (IH _ _ _ _ _ _ _ _ _ Hg' H) as [A [B [C [D [F [G [K S]]]]]]].
+        split; [exact A|]. split; [exact B|]. split.
+        { intros n0 [<-|Hin]; [|apply C; exact Hin]. right. unfold loaded_uid. apply G.
+          rewrite map_app. apply in_or_app. right. left. reflexivity. }
+        split; [exact D|]. split.
+        { intros n0 Hin. destruct (F n0 Hin); [left; assumption|right; right; assumption]. }
+        split.
+        { intros x Hx. apply G. rewrite map_app. apply in_or_app. left. exact Hx. }
+        split.
+        { intros x Hx. destruct (K x Hx) as [K1|[n0 [K1 K2]]].
+          - rewrite map_app in K1. apply in_app_or in K1. destruct K1 as [K1|[<-|[]]]; [left; exact K1|].
+            right. exists n. split; [left; reflexivity|reflexivity].
+          - right. exists n0. split; [right; exact K1|exact K2]. }
+        intro Hs. destruct (S Hs) as [S1 _]. discriminate.
+      + exfalso. exact (Hna x eq_refl).
+      + destruct (IH _ _ _ _ _ _ _ _ _ Hg' H) as [A [B [C [D [F [G [K S]]]]]]].
+        split; [exact A|]. split; [exact B|]. split.
+        { intros n0 [<-|Hin]; [left; apply D; apply in_or_app; right; left; reflexivity|apply C; exact Hin]. }
+        split; [intros n0 Hin; apply D; apply in_or_app; left; exact Hin|]. split.
+        { intros n0 Hin. destruct (F n0 Hin) as [F1|F1]; [|right; right; exact F1].
+          apply in_app_or in F1. destruct F1 as [F1|[<-|[]]]; [left; exact F1|right; left; reflexivity]. }
+        split; [exact G|]. split.
+        { intros x Hx. destruct (K x Hx) as [K1|[n0 [K1 K2]]]; [left; exact K1|].
+          right. exists n0. split; [right; exact K1|exact K2]. }
+        intro Hs. destruct (S Hs) as [S1 [S2 S3]]. split; [exact S1|]. split; [exact S2|].
+        intros n0 [<-|Hin]; [rewrite E; reflexivity|apply S3; exact Hin].
+  Qed.
+
+  (* where the loop stops with leftovers, every leftover is still waiting for a node that is
+     not loaded: the set of loaded nodes is maximal *)
+  Lemma retry_good : forall fuel loaded pending errs succ all,
+    (forall n, In n pending -> insts_ok n) ->
+    (forall n, In n all -> In n pending \/ loaded_uid n loaded) ->
+    (succ = false -> forall n, In n pending ->
+        snd (load_children (load_child sc o loaded) mk (n_children n) [] errs) = SDefer) ->
+    length pending < fuel ->
+    exists l left,
+      retry mk sc o fuel loaded pending errs succ = NFinished l left errs /\
+      (forall n, In n all -> In n left \/ loaded_uid n l) /\
+      (forall n, In n left -> In n pending) /\
+      (forall x, In x (map lnode_obj loaded) -> In x (map lnode_obj l)) /\
+      (forall x, In x (map lnode_obj l) -> In x (map lnode_obj loaded) \/ exists n, In n pending /\ x = (n_uid n, n_id n)) /\
+      (forall n, In n left -> snd (load_children (load_child sc o l) mk (n_children n) [] errs) = SDefer).
+  Proof.
+    induction fuel as [|f IH]; intros loaded pending errs succ all Hg Hall Hstuck Hlt; [lia|].
+    destruct pending as [|p ps].
+    - exists loaded, []. simpl. split; [reflexivity|]. split; [exact Hall|].
+      split; [intros n []|]. split; [auto|]. split; [intros x Hx; left; exact Hx|intros n []].
+    - destruct succ.
+      + rewrite retry_unfold.
+        destruct (pass mk sc o (p :: ps) loaded [] errs false) as [[[[l' p'] e'] s'] ab] eqn:E.
+        destruct (pass_good _ _ _ _ _ _ _ _ _ _ Hg E) as [A [B [C [D [F [G [K S]]]]]]]. subst ab e'.
+        assert (Hlen : s' = true -> length p' < f).
+        { intro Hs. destruct (pass_counts mk sc o _ _ _ _ _ _ _ _ _ E) as [_ Q]. destruct (Q Hs) as [Q1|Q1]; [discriminate|].
+          simpl in Q1, Hlt. lia. }
+        assert (Hg' : forall n, In n p' -> insts_ok n).
+        { intros n Hin. destruct (F n Hin) as [[]|F1]. apply Hg. exact F1. }
+        assert (Hall' : forall n, In n all -> In n p' \/ loaded_uid n l').
+        { intros n Hin. destruct (Hall n Hin) as [H1|H1]; [apply C; exact H1|right; apply G; exact H1]. }
+        assert (Hstuck' : s' = false -> forall n, In n p' ->
+                  snd (load_children (load_child sc o l') mk (n_children n) [] errs) = SDefer).
+        { intros Hs n Hin. destruct (S Hs) as [_ [S2 S3]]. subst l'.
+          destruct (F n Hin) as [[]|F1]. apply S3. exact F1. }
+        destruct s'.
+        * destruct (IH l' p' errs true all Hg' Hall' Hstuck' (Hlen eq_refl)) as [l [left [R1 [R2 [R3 [R4 [R5 R6]]]]]]].
+          exists l, left. split; [exact R1|]. split; [exact R2|]. split.
+          { intros n Hin. destruct (F n (R3 n Hin)) as [[]|F1]. exact F1. }
+          split; [intros x Hx; apply R4; apply G; exact Hx|]. split; [|exact R6].
+          intros x Hx. destruct (R5 x Hx) as [R|[n [R R']]].
+          -- destruct (K x R) as [K1|[n [K1 K2]]]; [left; exact K1|right; exists n; split; assumption].
+          -- right. exists n. split; [|exact R']. destruct (F n R) as [[]|F1]. exact F1.
+        * (* nothing loaded in this pass: the loop stops here *)
+          destruct (S eq_refl) as [_ [S2 S3]]. subst l'.
+          assert (R : retry mk sc o f loaded p' errs false = NFinished loaded p' errs)
+            by (destruct f; destruct p'; reflexivity).
+          exists loaded, p'. split; [exact R|]. split; [exact Hall'|]. split.
+          { intros n Hin. destruct (F n Hin) as [[]|F1]. exact F1. }
+          split; [auto|]. split; [intros x Hx; left; exact Hx|].
+          intros n Hin. apply Hstuck'; [reflexivity|exact Hin].
+      + exists loaded, (p :: ps). split; [reflexivity|]. split; [exact Hall|].
+        split; [auto|]. split; [auto|]. split; [intros x Hx; left; exact Hx|].
+        intros n Hin. apply Hstuck; [reflexivity|exact Hin].
+  Qed.
+End Complete.
+
+Lemma first_lookup_some : forall l a u, In (u, a) l -> first_lookup l a <> None.
+Proof.
+  induction l as [|x r IH]; intros a u Hin; [contradiction|]. simpl.
+  destruct (N.eqb a (oid x)) eqn:E; [discriminate|].
+  destruct Hin as [->|Hin]; [unfold oid in E; simpl in E; rewrite N.eqb_refl in E; discriminate|].
+  apply (IH a u Hin).
+Qed.
+
+Lemma min_rank_exists (rank : ident -> nat) : forall (l : list tnode), l <> [] ->
+  exists n, In n l /\ forall n', In n' l -> rank (n_id n) <= rank (n_id n').
+Proof.
+  induction l as [|x r IH]; intro H; [congruence|].
+  destruct r as [|y r'].
+  - exists x. split; [left; reflexivity|]. intros n' [<-|[]]. lia.
+  - destruct (IH ltac:(discriminate)) as [m [Hm Hmin]].
+    destruct (Nat.le_gt_cases (rank (n_id x)) (rank (n_id m))) as [L|L].
+    + exists x. split; [left; reflexivity|]. intros n' [<-|Hin]; [lia|]. specialize (Hmin n' Hin). lia.
+    + exists m. split; [right; exact Hm|]. intros n' [<-|Hin]; [lia|]. apply Hmin. exact Hin.
+Qed.
+
+(* acyclic and every target defined  ==>  every node of the group loads, in every order *)
+Theorem retry_complete mk sc o nodes errs (rank : ident -> nat) :
+  (forall n, In n nodes -> insts_ok sc o n) ->
+  (forall n t h, In n nodes -> In (NNode t h) (n_children n) ->
+     h = true /\ t <> 0%N /\ exists m, In m nodes /\ n_id m = t /\ rank t < rank (n_id n)) ->
+  exists l,
+    load_group mk sc o nodes [] errs = NFinished l [] errs /\
+    (forall n, In n nodes -> loaded_uid n l) /\
+    (forall x, In x (map lnode_obj l) -> exists n, In n nodes /\ x = (n_uid n, n_id n)).
+Proof.
+  intros Hg Hdef. unfold load_group.
+  destruct (pass mk sc o nodes [] [] errs false) as [[[[l1 p1] e1] s1] ab] eqn:E.
+  destruct (pass_good mk sc o _ _ _ _ _ _ _ _ _ _ Hg E) as [A [B [C [D [F [G [K S]]]]]]]. subst ab e1.
+  assert (Hg1 : forall n, In n p1 -> insts_ok sc o n).
+  { intros n Hin. destruct (F n Hin) as [[]|F1]. apply Hg. exact F1. }
+  assert (Hstuck : s1 = false -> forall n, In n p1 ->
+            snd (load_children (load_child sc o l1) mk (n_children n) [] errs) = SDefer).
+  { intros Hs n Hin. destruct (S Hs) as [_ [S2 S3]]. subst l1. destruct (F n Hin) as [[]|F1]. apply S3. exact F1. }
+  destruct (retry_good mk sc o (Datatypes.S (length p1)) l1 p1 errs s1 nodes Hg1 C Hstuck ltac:(simpl; lia))
+    as [l [left [R1 [R2 [R3 [R4 [R5 R6]]]]]]].
+  assert (Hleft : left = []).
+  { destruct left as [|x0 xs] eqn:EL; [reflexivity|]. exfalso.
+    destruct (min_rank_exists rank (x0 :: xs) ltac:(discriminate)) as [m0 [Hm0 Hmin]].
+    destruct (children_defer_witness _ mk _ _ _ (R6 m0 Hm0)) as [c [Hc Hd]].
+    assert (Hm0n : In m0 nodes).
+    { destruct (F m0 (R3 m0 Hm0)) as [[]|F1]. exact F1. }
+    destruct c as [r mats|t h].
+    - simpl in Hd. destruct (resolve o r); [|discriminate]. destruct (omapM (resolve o) mats); discriminate.
+    - destruct (Hdef m0 t h Hm0n Hc) as [Hh [Ht0 [m [Hm [Hmt Hr]]]]]. subst h. simpl in Hd.
+      destruct (find_node sc o l t) as [v|] eqn:FN; [discriminate|].
+      destruct (R2 m Hm) as [Q|Q].
+      + specialize (Hmin m Q). rewrite Hmt in Hmin. lia.
+      + unfold loaded_uid in Q. rewrite Hmt in Q.
+        destruct sc; simpl in FN.
+        * apply (proj1 (spec_lookup_none _ _) FN (n_uid m)). apply in_or_app. right. exact Q.
+        * destruct (first_lookup (filter (fun x => negb (N.eqb (oid x) 0)) (map lnode_obj l)) t) eqn:FL; [discriminate|].
+          apply (first_lookup_some _ t (n_uid m)) in FL; [exact FL|].
+          apply filter_In. split; [exact Q|]. unfold oid. simpl.
+          destruct (N.eqb t 0) eqn:Z; [apply N.eqb_eq in Z; contradiction|reflexivity]. }
+  subst left. exists l. split; [exact R1|]. split.
+  - intros n Hin. destruct (R2 n Hin) as [[]|Q]. exact Q.
+  - intros x Hx. destruct (R5 x Hx) as [Q|[n [Q Q']]].
+    + destruct (K x Q) as [[]|[n [K1 K2]]]. exists n. split; assumption.
+    + exists n. split; [|exact Q']. destruct (F n Q) as [[]|F1]. exact F1.
+Qed.
